@@ -44,8 +44,8 @@ COMPONENTS = {
 }
 ASSUMPTIONS = ["TLS 1.3: application records are the encrypted records after the client's "
                "Finished; alerts (close_notify) are not application bytes"]
-CERTS = fx.SERVER_CERTS + fx.EXPIRED_CERTS + fx.BAD_CERTS
-CW = [4] * len(fx.SERVER_CERTS) + [4] * len(fx.EXPIRED_CERTS) + [1] * len(fx.BAD_CERTS)
+CERTS = fx.SERVER_CERTS + fx.CLONE_CERTS + fx.EXPIRED_CERTS + fx.BAD_CERTS
+CW = [4] * len(fx.SERVER_CERTS) + [4] * len(fx.CLONE_CERTS) + [4] * len(fx.EXPIRED_CERTS) + [1] * len(fx.BAD_CERTS)
 
 
 def run_one(ch):
@@ -93,6 +93,9 @@ def run_one(ch):
             if op == 3:
                 key = endpoint("sw")
                 c = CERTS[ch.choose("swcert", len(CERTS), CW)]
+                cur = w.servers[key].cert
+                if cur in fx.CLONE_CERTS and ch.chance("toclone", 0.6):
+                    c = fx.CLONE_CERTS[1 - fx.CLONE_CERTS.index(cur)]
                 w.servers[key].cert = c
                 hist.append(f"env: {key[0]}:{key[1]} now presents {c}")
                 continue
